@@ -32,7 +32,7 @@ const (
 )
 
 // plan: quick samples every 4th of the 512 three-file digraphs (offset by the seed),
-// thorough takes all of them plus every 16th of the 65536 four-file digraphs.
+// thorough takes all of them plus every 64th of the 65536 four-file digraphs.
 func plan(tier string) (n3, e4cases, random, stress int) {
 	if tier == "thorough" {
 		return 512, 1024 / batch4, 400, 12
@@ -48,7 +48,7 @@ func (prop) Cases(tier string) int {
 func (prop) Info() fw.Info {
 	return fw.Info{
 		Level: "exploration",
-		Rule: "cases enumerate every import digraph (self loops, 2-cycles, diamonds included) on 1 and 2 files, every 4th (quick; offset by seed) or every one (thorough) of the 512 digraphs on 3 files, thorough also every 16th of the 65536 digraphs on 4 files, then random graphs on 4..8 files, each with PRNG-chosen import spellings (relative, ./, x/../, ../, root-relative, with/without extension); for each graph, without depth limit and with one or two depth limits, the schedule controller enumerates the release orders of parked collectSpecs entries and parked reads (odometer over choice points, capped; beyond the cap PRNG-chosen schedules), plus free-running stress cases at GOMAXPROCS 1/2/16. Oracles per execution: reference closure from the graph alone (reachable files, BFS distance < limit, depth-first pre-order) vs the processed-file order and the marker applications in the model; exactly one claim and one read per file; every invocation returned before collection ends; shared application carries one source context per contributing file in processing order; model equal (proto) across all schedules and to an uncontrolled compile; no race report. Non-trivial: >= 2 distinct interleavings or a cycle/diamond; distinct by graph+spellings.",
+		Rule: "cases enumerate every import digraph (self loops, 2-cycles, diamonds included) on 1 and 2 files, every 4th (quick; offset by seed) or every one (thorough) of the 512 digraphs on 3 files, thorough also every 64th of the 65536 digraphs on 4 files, then random graphs on 4..8 files, each with PRNG-chosen import spellings (relative, ./, x/../, ../, root-relative, with/without extension); for each graph, without depth limit and with one or two depth limits, the schedule controller enumerates the release orders of parked collectSpecs entries and parked reads (odometer over choice points, capped; beyond the cap PRNG-chosen schedules), plus free-running stress cases at GOMAXPROCS 1/2/16. Oracles per execution: reference closure from the graph alone (reachable files, BFS distance < limit, depth-first pre-order) vs the processed-file order and the marker applications in the model; exactly one claim and one read per file; every invocation returned before collection ends; shared application carries one source context per contributing file in processing order; model equal (proto) across all schedules and to an uncontrolled compile; no race report. Non-trivial: >= 2 distinct interleavings or a cycle/diamond; distinct by graph+spellings.",
 		Assumptions: []string{"hook events are emitted at the documented points of collectSpecs (entry before the claim lock, won/lost after it is released)", "one controlled execution at a time per worker process (hook variables are global)", "remote (versioned git) imports are not generated: they need the network"},
 		Race:        true,
 		CaseTimeout: 600,
@@ -282,7 +282,7 @@ func (prop) Run(ctx *fw.Ctx, i int) fw.Result {
 	}
 	cap := 12
 	if ctx.Thorough() {
-		cap = 60
+		cap = 40
 		if len(graphs) > 1 {
 			cap = 16
 		}
